@@ -294,17 +294,19 @@ def work_in_tmp_dir(
             if len(filenames_to_copy) > 0:
                 logger.info(f"Copying {filenames_to_copy}")
 
-            for filename in filenames_to_copy:
-                if filename.endswith("_mol.in"):
-                    # MOPAC needs the file to be called this
-                    shutil.move(filename, os.path.join(tmpdir_path, "mol.in"))
-                else:
-                    shutil.copy(filename, tmpdir_path)
-
-            # Move directories and execute
-            os.chdir(tmpdir_path)
-
             try:
+                for filename in filenames_to_copy:
+                    if filename.endswith("_mol.in"):
+                        # MOPAC needs the file to be called this
+                        shutil.move(
+                            filename, os.path.join(tmpdir_path, "mol.in")
+                        )
+                    else:
+                        shutil.copy(filename, tmpdir_path)
+
+                # Move directories and execute
+                os.chdir(tmpdir_path)
+
                 logger.info("Function   ...running")
                 result = func(*args, **kwargs)
                 logger.info("           ...done")
@@ -612,19 +614,26 @@ def run_in_tmp_environment(**kwargs) -> Callable:
     def func_decorator(func):
         @wraps(func)
         def wrapped_function(*args, **_kwargs):
-            for env_var in env_vars:
-                logger.info(f"Setting the {env_var.name} to {env_var.new_val}")
-                os.environ[env_var.name] = env_var.new_val
+            # Values to restore are those present when the call is made
+            prev_vals = [os.getenv(env_var.name, None) for env_var in env_vars]
 
-            result = func(*args, **_kwargs)
+            try:
+                for env_var in env_vars:
+                    logger.info(
+                        f"Setting the {env_var.name} to {env_var.new_val}"
+                    )
+                    os.environ[env_var.name] = env_var.new_val
 
-            for env_var in env_vars:
-                if env_var.val is None:
-                    # Remove from the environment
-                    os.environ.pop(env_var.name)
-                else:
-                    # otherwise set it back to the old value
-                    os.environ[env_var.name] = env_var.val
+                result = func(*args, **_kwargs)
+
+            finally:
+                for env_var, prev_val in zip(env_vars, prev_vals):
+                    if prev_val is None:
+                        # Remove from the environment
+                        os.environ.pop(env_var.name, None)
+                    else:
+                        # otherwise set it back to the old value
+                        os.environ[env_var.name] = prev_val
 
             return result
 
